@@ -163,6 +163,35 @@ def session_cases(rng):
                         yield {'single': single, 'ops': ops}
 
 
+def region_cases(rng):
+    """two or three files stored in the SAME region (directory tail, one numbered archive, preload only, single-file tail);
+    the first / middle / last one is overwritten with a payload whose stored part is 0, 1, old-1, old, old+1 bytes long,
+    in the same session or after reopening in 'a' mode; every file is observed before and after write_dirfile + reopen."""
+    regions = [('dir tail', False, 0, None), ('dir tail', False, 16, None), ('numbered archive', False, 0, 1),
+               ('numbered archive', False, 16, 1), ('preload only', False, 1024, 0), ('single-file tail', True, None, None)]
+    tails = [11, 7, 13]
+    for region, single, limit, idx in regions:
+        pre = 65535 if single else (0 if region == 'preload only' else limit)
+        for n in (2, 3):
+            names = [U.spell('t', 'r', 'f%d' % i, 'dat') for i in range(n)]
+            for pos in range(n):
+                old = tails[pos]
+                for new in (0, 1, old - 1, old, old + 1):
+                    for reopen in (False, True):
+                        ops = [['open', 'w', limit], ['check']]
+                        for i in range(n):
+                            ops.append(['add', names[i], ['g', rng.randrange(1000), pre + tails[i]], idx])
+                        ops.append(['check'])
+                        if reopen:
+                            ops += [rng.choice([['flush'], ['exit', False]]), ['open', 'a', limit], ['check']]
+                        size = new if region == 'preload only' else (pre + new if new else rng.choice([0, pre]))
+                        ops += [['write', names[pos], ['g', rng.randrange(1000), size], idx], ['check'],
+                                rng.choice([['flush'], ['exit', False]]), ['open', 'r', limit], ['check'],
+                                ['open', 'a', limit], ['write', names[(pos + 1) % n], ['g', rng.randrange(1000), pre + rng.choice([1, old, 20])], idx],
+                                ['check'], ['flush'], ['open', 'r', None], ['check']]
+                        yield {'single': single, 'ops': ops}
+
+
 def _nontrivial(case):
     stores = any(o[0] in ('add', 'write', 'new') for o in case['ops'])
     reopens = sum(1 for o in case['ops'] if o[0] == 'open') >= 2
@@ -182,6 +211,9 @@ def _all_cases(ctx):
     sess = list(session_cases(rng))
     ctx.count('with-block sessions (mode x existing/missing x body x ending)', len(sess))
     cases += sess
+    reg = list(region_cases(rng))
+    ctx.count('same-region overwrite histories (first/middle/last x shorter/equal/longer x reopen)', len(reg))
+    cases += reg
     coll = list(collision_cases(rng))
     ctx.count('same-length same-CRC overwrite histories (all placements)', len(coll))
     cases += coll
